@@ -6,8 +6,8 @@ from __future__ import annotations
 from vcheck.props import simcheck
 from vcheck.sim import monitors, programs as P
 
-ONE = ["S", "Sm", "R", "W", "C", "Cs", "K", "I", "N", "H", "P", "M", "F", "Pw"]
-TWO = [("S", "W"), ("Sm", "S"), ("W", "S"), ("C", "S"), ("H", "S"), ("P", "W"), ("N", "S"), ("I", "W")]
+ONE = ["S", "Sm", "R", "W", "C", "Cs", "K", "I", "N", "H", "P", "M", "F", "Pw", "Pe", "Me"]
+TWO = [("Pe", "S"), ("S", "W"), ("Sm", "S"), ("W", "S"), ("C", "S"), ("H", "S"), ("P", "W"), ("N", "S"), ("I", "W")]
 
 
 def space(tier):
@@ -42,6 +42,17 @@ def space(tier):
             units.append(({"program": p, "cfg": {"env_kinds": ["fault"], "faults": ["5xx", "blackhole"], "api_latency": 0.05,
                                                  "policy": pol, "timer_choices": pol == "rtb"}},
                           {"fault": 1, "thread": 1, "timer": 1, "total": 2 if pol == "rtb" else 1}, cap))
+    # early completion while a sibling's terminal record is queued behind an in-flight call: the slower branch's step
+    # ends at every offset of a 50 ms grid inside / around the 300 ms (and 50 ms) API calls of the faster branch
+    for lat in (0.05, 0.3):
+        for dms in (50, 150, 250, 350, 450, 550, 650):
+            p = {"name": f"Pe[slow-branch-step={dms}ms;api={int(lat * 1000)}ms]", "seq": [
+                {"k": "par", "cfg": {"cc": "first"}, "branches": [
+                    [{"k": "step", "fn": {"ret": "A"}}],
+                    [{"k": "step", "fn": {"sleep": dms / 1000.0, "then": {"ret": "B1"}}}, {"k": "step", "fn": {"ret": "B2"}}]]},
+                {"k": "step", "fn": {"ret": "after"}}]}
+            units.append(({"program": p, "cfg": {"env_kinds": [], "api_latency": lat, "timer_choices": True}},
+                          {"thread": 1, "timer": 1, "total": 1}, cap))
     # one preemption at any line of threading.py / state.py while a call fails (waiters released between two lines)
     import aws_durable_execution_sdk_python.state as _stm
     import aws_durable_execution_sdk_python.threading as _thm
